@@ -40,8 +40,10 @@ MANIFEST = {
              "those and keeps the order of the rest; only the instances in the collection become NOT_NEW; NoData iff "
              "nothing matches or max_samples = 0, BadParameter iff the instance argument is unknown, and then nothing "
              "changes; sample_rank / generation_rank / absolute_generation_rank equal the DDS 1.4 definitions; "
-             "sample_state in the info is the state before the call. By induction over histories: every stored "
-             "sample has an instance record and instance handles are distinct. The model is tied to the code by "
+             "sample_state in the info is the state before the call. By induction over histories (all QoS): every "
+             "stored sample has an instance record, instance handles are distinct, a sample's generation never "
+             "exceeds its instance's and (BY_RECEPTION_TIMESTAMP) generations are non-decreasing along the cache, "
+             "hence 0 <= generation_rank <= absolute_generation_rank in every collection. The model is tied to the code by "
              "exact comparison on generated histories inside Coq, and an independent oracle (expected collection "
              "computed from the observed pre-state, ranks, read/take effects, grouping) judges every collection "
              "the real reader returned."),
